@@ -49,6 +49,9 @@ CLAIMED = {
  "C19": dict(engine="E4", technique="exhaustive enumeration of single file mutations, stray entries and argument triples",
    text="For every base database every truncation, every single-byte substitution from a 12-byte set, every single JSON-tree mutation of schema.json and of every object file, stray files and directories, and 23 x 11 x 26 search argument triples are enumerated; each case runs the whole public call set on a fresh handle under recover: no panic, no hang, no objects from a failed search.",
    note="One mutation per file (thorough: pairs inside the index subtree); hang = 30 s wall watchdog.", ref="6/C19"),
+ "C09": dict(engine="E2", technique="stateless deviation-bounded schedule exploration of the real code; deadlock oracle",
+   text="For every exported entry point against a write-lock taker (and further partners), warm and cold handles, sync and async configurations, every schedule with at most the stated number of deviations is executed on the real code under a cooperative scheduler with an exact writer-preferring RWMutex model; no reachable state may have unfinished threads and none enabled.",
+   note="2-3 threads, 1-2 calls each, deviation bound 1-2 (quick) / 3 (thorough); scheduling points at lock acquisitions, context checks, sleeps.", ref="6/C09"),
 }
 
 NOT_YET = {}
